@@ -22,6 +22,7 @@ import Proofs.DdsFuel
 import Proofs.DdsNorm
 import Proofs.DdsDimWitness
 import Proofs.DdsOrder
+import Proofs.DdsSame
 import Proofs.DdsSrc
 namespace Pydap.C07
 open Pydap Pydap.Dds
@@ -51,6 +52,36 @@ theorem C07_print_then_parse (d : Dataset) (hwf : WFds d) (hty : PrintableL d.ki
   obtain ⟨s, hs⟩ := printDs_ok d hty
   exact ⟨s, hs, parse_print d s hs hwf⟩
 
+/-- THE FIRST SENTENCE OF THE PROPERTY, composed and in its own words (no `normDs` in the statement): every well-formed
+    dataset whose dtypes are in the type table and whose dimension names, where given, are one per declared extent
+    prints, the text parses, and the parsed dataset `d'` is the same tree of variables — `SameDs d d'`
+    (`Proofs/DdsSame.lean`), a relation defined node by node without reference to the model's `norm*` functions:
+    same kinds, names and order (members of a Grid included), same element type (the DAP2 type both dtypes are
+    declared as: `dap2Of b'.dt = dap2Of b.dt`), shape = the shape a DDS declares (whole shape of a variable without
+    data, shape minus one record axis per enclosing Sequence of a variable holding data), dimension names = the given
+    ones (an unnamed 1-d array is declared, by pydap as by every DAP2 server, with its own name as dimension name).
+    And `d'` prints the very same text. -/
+theorem C07_same_tree (d : Dataset) (hwf : WFds d) (hty : PrintableL d.kids) (hdims : DimsFitDs d) :
+    ∃ s d', printDs d = .ok s ∧ parseDds s = .ok d' ∧ SameDs d d' ∧ printDs d' = .ok s := by
+  obtain ⟨s, hs⟩ := printDs_ok d hty
+  exact ⟨s, normDs d, hs, parse_print d s hs hwf, sameDs_norm d hdims, by rw [printDs_norm d, hs]⟩
+
+/-- `SameDs` is as strong as it reads.  It fixes the other dataset completely except for the spelling of the dtypes
+    (whose DAP2 type it fixes) and the data flag: two datasets that are both "the same tree" as `d` have equal names
+    and equal children once dtype strings and data flags are erased (`eraseL`); and it implies equal skeletons. -/
+theorem C07_same_tree_determines (d d₁ d₂ : Dataset) (h₁ : SameDs d d₁) (h₂ : SameDs d d₂) :
+    d₁.name = d₂.name ∧ eraseL d₁.kids = eraseL d₂.kids ∧ skelDs d₁ = skelDs d ∧ skelDs d₂ = skelDs d :=
+  ⟨(sameDs_unique h₁ h₂).1, (sameDs_unique h₁ h₂).2, sameDs_skel h₁, sameDs_skel h₂⟩
+
+/-- "BaseType of every DAP2 type": each of the eight DAP2 base types pydap can hold is the declared type of a numpy
+    dtype of the printer's table, and the parser's table knows its (lower-cased) name — so `PrintableL` excludes no DAP2
+    type.  (`Url` has no numpy dtype: pydap never prints it; it is reached through `C07_foreign` only.) -/
+theorem C07_types_covered :
+    ∀ ty ∈ ["Byte", "Int16", "UInt16", "Int32", "UInt32", "Float32", "Float64", "String"],
+      (∃ p ∈ Gen.NUMPY_TO_DAP2_TYPEMAP, p.2 = ty ∧ dap2Of p.1.toList = some ty.toList) ∧
+      (lookup Gen.LOWER_DAP2_TO_NUMPY_PARSER_TYPEMAP (lower ty.toList)).isSome = true :=
+  dap2_types_covered
+
 /-- What `norm` does to a base variable below `sq` sequences, with `sh` the shape the DDS declares (the whole
     shape of a variable without data, the shape without its `sq` record axes of a variable holding data) and
     dimension names (if any) one per declared extent: name kept, shape = `sh`, dimension names kept, an
@@ -61,28 +92,8 @@ theorem C07_norm_base (b : BaseV) (sq : Nat) (sh : List Int)
     (h : b.dims = [] ∨ b.dims.length = sh.length) :
     (normBase b sq).name = b.name ∧ (normBase b sq).shape = sh ∧ (normBase b sq).dt = normTy b.dt ∧
     (normBase b sq).dims = (if b.dims ≠ [] then b.dims else if sh.length = 1 then [b.name] else []) ∧
-    (normBase b sq).nodata = true := by
-  have he : effShape b sq = sh := by rw [hsh]; rfl
-  unfold normBase
-  rw [he]
-  simp only
-  by_cases h1 : b.dims ≠ []
-  · have hl : b.dims.length = sh.length := by
-      rcases h with h | h
-      · exact absurd h h1
-      · exact h
-    rw [if_pos h1, if_pos h1]
-    refine ⟨rfl, ?_, rfl, ?_, rfl⟩
-    · exact List.map_snd_zip (by omega)
-    · exact List.map_fst_zip (by omega)
-  · rw [if_neg h1, if_neg h1]
-    by_cases h2 : sh.length = 1
-    · rw [if_pos h2, if_pos h2]
-      refine ⟨rfl, rfl, rfl, ?_, rfl⟩
-      match sh, h2 with
-      | [n], _ => simp
-    · rw [if_neg h2, if_neg h2]
-      exact ⟨rfl, rfl, rfl, rfl, rfl⟩
+    (normBase b sq).nodata = true :=
+  normBase_fields b sq sh (by rw [hsh]; rfl) h
 
 /-- Text fixpoint, full statement, EVERY dataset (no hypothesis at all: any names, types, extents, nesting,
     array members of sequences with or without data): printing the tree that the printed DDS parses to gives
@@ -108,11 +119,15 @@ theorem C07_parser_builds_no_data (s : Text) (d : Dataset) (h : parseDds s = .ok
   parseDds_nodata s d h
 
 /-- The domain of the theorems above is reached from raw names: `_quote` (which `DapType.__init__` applies to
-    every name) maps every non-empty ASCII name without `/` that does not start with `dap4` to a name
-    satisfying `NameOk` — spaces, brackets, `&`, `.`, quotes … are percent-escaped into `name_regexp`'s alphabet. -/
+    every name) maps every non-empty ASCII name without `/` to a name satisfying `NameOk` — spaces, brackets, `&`, `.`,
+    quotes … are percent-escaped into `name_regexp`'s alphabet.  Names starting with `dap4` (whose first 8 characters
+    `_quote` passes through unquoted) are included as soon as those 8 characters are characters of `name_regexp`, which
+    holds for every identifier (`dap4x`, `dap4_temp`); the former blanket exclusion `raw.take 4 ≠ "dap4"` is the special
+    case where the implication is vacuous.  (`dap4 x`, with a blank among the 8, is NOT mapped into `NameOk`: see the
+    example below.) -/
 theorem C07_quoted_names (raw : Text) (hne : raw ≠ []) (h : ∀ c ∈ raw, c ≠ '/' ∧ c.toNat < 128)
-    (hd : raw.take 4 ≠ ['d', 'a', 'p', '4']) : NameOk (quoteName raw) :=
-  quoteName_nameOk raw hne h hd
+    (hd : raw.take 4 = ['d', 'a', 'p', '4'] → ∀ c ∈ raw.take 8, isNameRe c = true) : NameOk (quoteName raw) :=
+  quoteName_nameOk_any raw hne h hd
 
 /-- The fuel of the model parser is not an artefact, for ANY input text (well-formed or not): with fuel at least
     the text length the outcome (tree or error class) no longer depends on it — for the declaration loops, for
@@ -168,13 +183,55 @@ example : PrintableL sample.kids := by
   simp [sample, PrintableL, PrintableT, TyKnown]
   decide
 
+-- `C07_same_tree`: the sample (quoted name, named 2-d array, unnamed 1-d array, structure, sequence with members
+-- holding data, grid) is in its domain
+example : DimsFitDs sample := by
+  simp [DimsFitDs, sample, DimsFitL, DimsFitT, DimsFitB, effShape]
+
+example : ∃ s d', printDs sample = .ok s ∧ parseDds s = .ok d' ∧ SameDs sample d' ∧ printDs d' = .ok s :=
+  C07_same_tree sample sample_wf (by simp [sample, PrintableL, PrintableT, TyKnown]; decide)
+    (by simp [DimsFitDs, sample, DimsFitL, DimsFitT, DimsFitB, effShape])
+
+-- `SameDs` has teeth: order matters (two members swapped), the record axis matters (shape (5,3) kept), and the
+-- element type matters (Int16 read back as Int32)
+example : ¬ SameDs ⟨['d'], [.base ⟨['a'], ['i'], [], [], false⟩, .base ⟨['b'], ['i'], [], [], false⟩]⟩
+               ⟨['d'], [.base ⟨['b'], ['>', 'i'], [], [], true⟩, .base ⟨['a'], ['>', 'i'], [], [], true⟩]⟩ := by
+  rintro ⟨_, h⟩
+  cases h with
+  | cons h _ => cases h with
+    | base h => exact absurd h.name (by decide)
+
+example : ¬ SameDs seqArrayWitness ⟨['d'], [.seq ['Q'] [.base ⟨['i'], ['>', 'h'], [5, 3], [], true⟩]]⟩ := by
+  rintro ⟨_, h⟩
+  cases h with
+  | cons h _ => cases h with
+    | seq h => cases h with
+      | cons h _ => cases h with
+        | base h => exact absurd h.shape (by decide)
+
+example : ¬ SameDs ⟨['d'], [.base ⟨['a'], ['h'], [], [], false⟩]⟩ ⟨['d'], [.base ⟨['a'], ['>', 'i'], [], [], true⟩]⟩ := by
+  rintro ⟨_, h⟩
+  cases h with
+  | cons h _ => cases h with
+    | base h => exact absurd h.type (by decide)
+
+-- a name starting with `dap4` that is an identifier is in the domain of `C07_quoted_names`; with a blank among the
+-- first 8 characters it is not, and indeed `_quote` leaves the blank in place (outside `NameOk`)
+example : NameOk (quoteName "dap4_temp a".toList) :=
+  C07_quoted_names _ (by decide) (by decide) (by decide)
+
+example : quoteName "dap4 x".toList = "dap4 x".toList ∧ ¬ NameOk "dap4 x".toList := by
+  refine ⟨by decide, ?_⟩
+  rintro ⟨_, h⟩
+  exact absurd (h ' ' (by decide)) (by decide)
+
 -- `C07_norm_base`: a member of a sequence holding 5 records of 3 values declares `[3]`
 example : ∃ (b : BaseV) (sq : Nat) (sh : List Int), sh = (if b.nodata = true then b.shape else b.shape.drop sq)
     ∧ (b.dims = [] ∨ b.dims.length = sh.length) ∧ sq = 1 ∧ sh = [3] :=
   ⟨⟨['i'], ['h'], [5, 3], [], false⟩, 1, [3], by decide, Or.inl rfl, rfl, rfl⟩
 
-example : ∃ raw : Text, raw ≠ [] ∧ (∀ c ∈ raw, c ≠ '/' ∧ c.toNat < 128) ∧ raw.take 4 ≠ ['d', 'a', 'p', '4']
-    ∧ quoteName raw ≠ raw :=
+example : ∃ raw : Text, raw ≠ [] ∧ (∀ c ∈ raw, c ≠ '/' ∧ c.toNat < 128) ∧
+    (raw.take 4 = ['d', 'a', 'p', '4'] → ∀ c ∈ raw.take 8, isNameRe c = true) ∧ quoteName raw ≠ raw :=
   ⟨"a b[0].c&".toList, by decide, by decide, by decide, by decide⟩
 
 -- fuel: a malformed text (parse error) and more fuel than needed
